@@ -245,7 +245,31 @@ def _row_desc(tb: str, a, ts, wk, TRIG, pulled: bool) -> str:
     return "for a " + ", ".join(bits) + " connection"
 
 
+def _arguments_only_read(ctx: Ctx, c: Collector) -> None:
+    """connect() only reads what the caller hands it: the initial_data mapping belongs to the caller, who may use it
+    for the next connect() call (or the same source attribute may be connected to several destinations in this one) --
+    taking entries out of it makes initial data that was given disappear, and the connection that needs it is
+    rejected."""
+    from ..flow import _MUTATORS
+    fi = ctx.func(CONNECT)
+    s = ctx.summ(CONNECT)
+    pr = []
+    for p in fi.params[1:]:
+        v = T.var(p)
+        rebound = [b.idx for b in s.of_kind("bind") if b.term[1] == v]
+        first = min(rebound) if rebound else None
+        for e in s.events:
+            if first is not None and e.idx > first:
+                break
+            if e.kind == "call" and e.term[1][0] == "attr" and e.term[1][1] == v and e.term[1][2] in (_MUTATORS - {"set", "cancel"}):
+                pr.append(f"{p}.{e.term[1][2]}(...) (line {e.lineno}) changes the caller's {p}")
+            elif e.kind in ("store", "del") and T.strip(e.term[1])[0] == "idx" and T.strip(e.term[1])[1] == v:
+                pr.append(f"{p}[...] is {'assigned' if e.kind == 'store' else 'deleted'} (line {e.lineno}): the caller's {p} is changed")
+    c.add("args", CONNECT, "connect() only reads its arguments", VIOLATED if pr else DISCHARGED, "; ".join(sorted(set(pr))), fi.loc)
+
+
 def _connect(ctx: Ctx, c: Collector) -> None:
+    _arguments_only_read(ctx, c)
     fi = ctx.func(CONNECT)
     s = ctx.summ(CONNECT)
     me = T.var(fi.params[0])
